@@ -207,16 +207,25 @@ with dir_loop (fuel : nat) (dir : list bytes) (evs : list file_event) (n : N)
       end
   end.
 
-(* Tar(): the first event is the root, whatever is left after it is ignored *)
-Definition tar_events (evs : list file_event) : option (list elem) :=
+(* Tar(): the first event is the root.  What the source still holds once the root has been
+   encoded -- an event that was put back because it is not in the directory being walked, and
+   everything after it -- is ignored and the archive is complete ([check] = false: the code
+   before "fix: tar fails when the source holds entries that did not make it into the
+   archive"), or makes Tar fail ([check] = true: buf.Next() after tar() must give io.EOF). *)
+Definition tar_events_with (check : bool) (evs : list file_event) : option (list elem) :=
   match evs with
   | [] => None                                                   (* io.EOF from the first Next *)
   | f :: rest =>
       match tar_ev (2 * length evs + 2) f rest with
-      | Some (els, _) => Some els
+      | Some (els, remaining) =>
+          if check && negb (match remaining with [] => true | _ => false end) then None else Some els
       | None => None
       end
   end.
+
+(* the code as it is: the constant is generated from tar.go on every build *)
+Definition tar_events (evs : list file_event) : option (list elem) :=
+  tar_events_with c05_tar_rejects_leftover evs.
 
 Definition tar_bytes (evs : list file_event) : option bytes :=
   match tar_events evs with Some els => Some (encode_elems els) | None => None end.
